@@ -856,6 +856,11 @@ def run(ctx):
             if ("error" in r) != (st == "error"):
                 ctx.disagree("validate:" + cls, case, st if st == "error" else "accepted", r)
 
+    ctx.notes.append("the coarse-graining map rules are proved for the length rule only (index_map_wrong_length_rejected) plus kernel-evaluated "
+                     "instances of the other four; they are otherwise tied by the correspondence (op validate/index_map) and the independent "
+                     "Python predicate spec_index_map_invalid")
+    ctx.notes.append("documented-but-refused values (not C20's concern, recorded): init_state_processing='floor' is documented and accepted by "
+                     "the engine but refused by the Python setter; the documented system key 'chstt_map' is refused (the code's key is 'chemostats')")
     # ---------------------------------------------------------------- 2. setters called directly with invalid values
     direct_setters(ctx)
 
